@@ -29,6 +29,7 @@ RULE = (
     "or a non-fresh argument kind."
 )
 ASSUMPTIONS = [
+    "tensors returned by earlier calls of the history are held by the caller and must keep their values during later calls (no shared output buffers)",
     "arguments: value (torch.equal) and _version must be unchanged, also for the base tensor of a view; model state: values of all parameters and buffers (incl. non-persistent)",
     "training mode: only BatchNorm running statistics (nflows BatchNorm and torch.nn.BatchNorm*), and ActNorm log_scale/shift/initialized while uninitialised, may change",
     "a call that raises is allowed (other properties own that) but must leave everything unchanged; an autograd 'in-place operation' error is reported as an attempted write",
@@ -125,13 +126,19 @@ def same(a, b):
         return all(same(x, y) for x, y in zip(a, b))
     if a is None or b is None:
         return a is b
-    return a.shape == b.shape and torch.equal(a.detach(), b.detach())
+    if a.shape != b.shape or a.dtype != b.dtype:
+        return False
+    a, b = a.detach(), b.detach()
+    if torch.equal(a, b):
+        return True
+    return bool(a.is_floating_point() and torch.equal(torch.isnan(a), torch.isnan(b)) and torch.equal(torch.nan_to_num(a, nan=0.0), torch.nan_to_num(b, nan=0.0)))
 
 
 def explore(obj, ops_table, hist, kind, train, is_eval_repeatable=True, refs=None):
     """run one history; returns list[(cellclass, symptom, msg)]"""
     out = []
     first = {}
+    held = []
     for step, op in enumerate(hist):
         fn, raw_args = ops_table[op]
         passed, mon = [], []
@@ -162,6 +169,14 @@ def explore(obj, ops_table, hist, kind, train, is_eval_repeatable=True, refs=Non
         ch = changed_tensors(mon, asnap)
         if ch:
             out.append(("args:" + kind, "argument modified (%s)" % ch[0][1], "%s: caller-owned tensor #%d changed (%s)" % (where, ch[0][0], ch[0][1])))
+        # tensors handed out by earlier calls belong to the caller as well: a later call must not overwrite them
+        for (pstep, pop, live, clones) in held:
+            if any(l.shape != c.shape or not same(l, c) for l, c in zip(live, clones)):
+                out.append(("results:" + kind, "result of an earlier call overwritten by a later call", "%s: the tensors returned by step %d (%s) changed during this call" % (where, pstep, pop)))
+                break
+        if err is None:
+            live = [t for t in (res if isinstance(res, (tuple, list)) else [res]) if torch.is_tensor(t)]
+            held.append((step, op, live, [t.detach().clone() for t in live]))
         ds = diff_state(obj, ssnap, allowed)
         if ds:
             out.append(("state:" + ("train" if train else "eval"), "model state modified", "%s: parameters/buffers changed: %s" % (where, ds[:4])))
